@@ -245,7 +245,7 @@ m('c12-track-stops', 'C12', 'track/sub/builder.rs',
   'playback_state_manager: PlaybackStateManager::new_for_track(),', 'playback_state_manager: PlaybackStateManager::new(None),',
   'B.SM.reach', 'a track can reach Stopped again (TrackHandle::state panics)', reverse_of='track waiting to resume')
 m('c12-ignore-children', 'C12', 'track/sub.rs',
-  '\t\tif self\n\t\t\t.sub_tracks\n\t\t\t.iter()\n\t\t\t.any(|(_, sub_track)| !sub_track.should_be_removed())\n\t\t{\n\t\t\treturn false;\n\t\t}\n', '',
+  '\t\tif self.sub_tracks.has_pending()\n\t\t\t|| self\n\t\t\t\t.sub_tracks\n\t\t\t\t.iter()\n\t\t\t\t.any(|(_, sub_track)| !sub_track.should_be_removed())\n\t\t{\n\t\t\treturn false;\n\t\t}\n', '',
   'B.C12.remove', 'a track is removed while a descendant is alive')
 m('c12-frozen-children', 'C12', 'track/sub.rs',
   '\t\tif !self.playback_state_manager.playback_state().is_advancing() {\n\t\t\tout.fill(Frame::ZERO);\n\t\t\treturn;\n\t\t}\n\n\t\tlet num_frames = out.len();\n\n\t\t// process sub tracks',
@@ -254,7 +254,7 @@ m('c12-frozen-children', 'C12', 'track/sub.rs',
 m('c12-decode', 'C12', 'track.rs', '\t\t\t2 => TrackPlaybackState::Paused,', '\t\t\t2 => TrackPlaybackState::Pausing,',
   'B.C12.decode', 'a paused track reports Pausing')
 m('c12-persist', 'C12', 'track/sub.rs',
-  'self.shared().is_marked_for_removal() && self.sounds.is_empty()', 'self.shared().is_marked_for_removal() || self.sounds.is_empty()',
+  'self.shared().is_marked_for_removal()\n\t\t\t\t&& self.sounds.is_empty()', 'self.shared().is_marked_for_removal()\n\t\t\t\t|| self.sounds.is_empty()',
   'B.C12.remove', 'a persistent track disappears as soon as it has no sounds')
 
 # ---------------------------------------------------------------- C13
